@@ -894,4 +894,82 @@ theorem dispatch_ok (table : List (List Nat)) (hnd : table.Nodup) (hlen : ∀ d 
   simp only [dispatch, ixData, if_neg hl, ht, hd]
   rw [hf, if_pos hi]
 
+/-! ## `split_to_args` -/
+
+theorem accessors_select (ph : Phase) : ∀ (anns : List (List Phase)) (vals pre : List Nat),
+    anns.length = vals.length →
+    (accessors ph pre.length anns).filterMap (fun i => (pre ++ vals)[i]?) =
+      ((anns.zip vals).filter (fun p => decide (ph ∈ p.1))).map (·.2) := by
+  intro anns
+  induction anns with
+  | nil => intro vals pre _; simp [accessors]
+  | cons a as ih =>
+    intro vals pre h
+    cases vals with
+    | nil => simp at h
+    | cons x xs =>
+      have hlen : as.length = xs.length := by simpa using h
+      have ih' := ih xs (pre ++ [x]) hlen
+      simp only [List.length_append, List.length_cons, List.length_nil, Nat.zero_add, List.append_assoc,
+        List.cons_append, List.nil_append] at ih'
+      by_cases hm : ph ∈ a
+      · simp only [accessors, hm, if_true, List.filterMap_cons, List.zip_cons_cons, List.filter_cons,
+          decide_true, List.map_cons]
+        rw [ih']
+        simp
+      · simp only [accessors, hm, if_false, List.zip_cons_cons, List.filter_cons, decide_false]
+        rw [ih']
+        simp
+
+theorem splitPhase_eq (ph : Phase) (selfAnn : List Phase) (anns : List (List Phase)) (vals : List Nat)
+    (h : anns.length = vals.length) :
+    splitPhase ph selfAnn anns vals = (if ph ∈ selfAnn then [vals] else []) ++
+      ((anns.zip vals).filter (fun p => decide (ph ∈ p.1))).map (fun p => [p.2]) := by
+  have := accessors_select ph anns vals [] h
+  simp only [List.length_nil, List.nil_append] at this
+  simp only [splitPhase]
+  congr 1
+  rw [← List.map_filterMap, this, List.map_map]
+  rfl
+
+theorem iterN_singles (pid : Key) (sg wr : Bool) (fk : Option Key) (cs : List Chk) (arg : DecodeArg) :
+    ∀ (accts tail : List Acct),
+      iterN (decode pid (.single sg wr fk cs) arg) accts.length (accts ++ tail) = .ok (accts.map .acct, tail) := by
+  intro accts
+  induction accts with
+  | nil => intro tail; simp [iterN]
+  | cons a as ih =>
+    intro tail
+    have hd : decode pid (.single sg wr fk cs) arg (a :: (as ++ tail)) = .ok (.acct a, as ++ tail) := by
+      simp [decode]
+    simp only [List.length_cons, List.cons_append, iterN, hd, ih tail, List.map_cons]
+
+theorem decode_spy (pid : Key) (accts : List Acct) :
+    decode pid spyShape (.fields [.len accts.length .unit]) accts =
+      .ok (.many [.many (accts.map .acct)], []) := by
+  have hit := iterN_singles pid false false none [] .unit accts []
+  simp only [List.append_nil] at hit
+  have h1 : decode pid (.vec (.single false false none [])) (.len accts.length .unit) accts =
+      (match iterN (decode pid (.single false false none []) .unit) accts.length accts with
+       | .error e => .error e
+       | .ok (vs, r) => .ok (.many vs, r)) := rfl
+  rw [hit] at h1
+  have h2 : decodeFields pid [.vec (.single false false none [])] [.len accts.length .unit] accts =
+      (match decode pid (.vec (.single false false none [])) (.len accts.length .unit) accts with
+       | .error e => .error e
+       | .ok (v, r) =>
+         match decodeFields pid [] [] r with
+         | .error e => .error e
+         | .ok (vs, r') => .ok (v :: vs, r')) := rfl
+  rw [h1] at h2
+  have h3 : decode pid spyShape (.fields [.len accts.length .unit]) accts =
+      (match decodeFields pid [.vec (.single false false none [])] [.len accts.length .unit] accts with
+       | .error e => .error e
+       | .ok (vs, r) => .ok (.many vs, r)) := rfl
+  rw [h3, h2]
+  rfl
+
+theorem deVals_append (vals rest : List Nat) : deVals vals.length (vals ++ rest) = some (vals, rest) := by
+  simp [deVals]
+
 end Account.Sets
